@@ -1,6 +1,7 @@
 import Driver.HistCmd
 import Driver.SolverCmd
 import Driver.StrCmd
+import Driver.NetCmd
 open Lean PyRates.Driver
 
 def dispatch (comp : String) (j : Json) : Except String Json :=
@@ -8,6 +9,7 @@ def dispatch (comp : String) (j : Json) : Except String Json :=
   | "hist" => histCmd j
   | "solver" => solverCmd j
   | "str" => strCmd j
+  | "net" => netCmd j
   | _ => .error s!"unknown component {comp}"
 
 partial def loop (h : IO.FS.Stream) (out : IO.FS.Stream) : IO Unit := do
